@@ -193,6 +193,110 @@ def gadget_pi_filters(facts, key='simplify::remove_gadget_pi'):
     return atoms, pair_ok, applied
 
 
+def fuse_effect(facts, key='simplify::fuse_gadgets'):
+    """the fusion loop of fuse_gadgets: for a group of `num` gadgets on the same `degree` targets, all but the first are removed (hub and leaf), the sum of
+    their leaf phases is added to the leaf of the first, and the scalar gets sqrt2^(-(num-1)(degree-1)).  [(slot, ok, msg)]"""
+    from ..reffect import Poly
+    f = facts['fns'][key]
+    res = []
+    # the group loop: a For over `gadgets` (map iteration) whose body applies the fusion
+    grp = None
+    for n in hir.find(f['hir'], 'For'):
+        if any(c.get('k') == 'MethodCall' and c['name'] == 'mul_sqrt2_pow' for c in hir.calls(n['body'])):
+            grp = n
+    if grp is None or grp['pat'].get('k') != 'Tuple' or len(grp['pat']['sub']) != 2:
+        return [('shape', None, 'the loop that fuses each group of gadgets `for (targets, gadgets) in ..` was not found (not-established-by-recognised-idiom)')]
+    key_id = hir.bindings(grp['pat']['sub'][0])[0][1]
+    val_id = hir.bindings(grp['pat']['sub'][1])[0][1]
+    lets = {n['pat']['id']: n for n in hir.nodes(grp['body']) if n.get('k') == 'Let' and n['pat'].get('k') == 'Bind' and n.get('init') is not None}
+
+    def len_of(e):
+        e = hir.strip(e)
+        while e.get('k') == 'Cast':
+            e = hir.strip(e['e'])
+        if e.get('k') == 'MethodCall' and e['name'] == 'len' and hir.local(e['recv']):
+            return hir.local(e['recv'])[1]
+        return None
+
+    def poly(e):
+        e = hir.strip(e)
+        while e.get('k') == 'Cast':
+            e = hir.strip(e['e'])
+        v = hir.lit_int(e)
+        if v is not None:
+            return Poly.const(v)
+        l = hir.local(e)
+        if l and l[1] in lets:
+            src = len_of(lets[l[1]]['init'])
+            if src == val_id:
+                return Poly.sym('num')
+            if src == key_id:
+                return Poly.sym('degree')
+            return poly(lets[l[1]]['init'])
+        src = len_of(e)
+        if src == val_id:
+            return Poly.sym('num')
+        if src == key_id:
+            return Poly.sym('degree')
+        if e.get('k') == 'Unary' and e['op'] == 'Neg':
+            return -poly(e['e'])
+        if e.get('k') == 'Binary' and e['op'] in ('Add', 'Sub', 'Mul'):
+            a, b = poly(e['l']), poly(e['r'])
+            return a + b if e['op'] == 'Add' else (a - b if e['op'] == 'Sub' else a * b)
+        raise ValueError(hir.pp(e)[:40])
+    sc = [c for c in hir.calls(grp['body']) if c.get('k') == 'MethodCall' and c['name'] == 'mul_sqrt2_pow']
+    try:
+        got = poly(sc[0]['args'][0]) if len(sc) == 1 else None
+    except ValueError as ex:
+        got = None
+        res.append(('scalar-exponent', None, 'the sqrt2 exponent `%s` is not a polynomial in the group size and the number of targets (not-established-by-recognised-idiom)' % ex))
+    want = -(Poly.sym('num') - Poly.const(1)) * (Poly.sym('degree') - Poly.const(1))
+    if got is not None:
+        res.append(('scalar-exponent', got == want, 'fusing num gadgets on degree common targets multiplies the scalar by sqrt2^(-(num-1)(degree-1)) — one factor per removed gadget; the code uses exponent %s (for num = 2 the two agree, for larger groups they do not)' % got))
+    # inner loop over the fused gadgets
+    inner = [n for n in hir.find(grp['body'], 'For')]
+    if len(inner) != 1:
+        res.append(('inner-loop', None, 'expected one loop over the gadgets that are fused away, found %d' % len(inner)))
+        return res
+    inner = inner[0]
+    it = hir.strip(inner['iter'])
+    names = []
+    while it.get('k') == 'MethodCall':
+        names.append((it['name'], it['args']))
+        it = hir.strip(it['recv'])
+    skip = [a for nm, a in names if nm == 'skip']
+    src_ok = hir.local(it) and hir.local(it)[1] == val_id and len(skip) == 1 and hir.lit_int(hir.strip(skip[0][0])) == 1
+    res.append(('all-but-first', bool(src_ok), 'the gadgets fused away must be all of the group except the first (`gs.iter().skip(1)`)'))
+    ivars = [i for _n, i in hir.bindings(inner['pat'])]
+    rem = [c for c in hir.calls(inner['body']) if c.get('k') == 'MethodCall' and c['name'] == 'remove_vertex']
+    removed = {hir.local(c['args'][0])[1] for c in rem if hir.local(c['args'][0])}
+    res.append(('removes-hub-and-leaf', len(ivars) == 2 and removed == set(ivars), 'each fused gadget must be removed entirely (hub and leaf)'))
+    # phase accumulator: declared zero, folded with += g.phase(leaf) for every fused gadget, then added to the first leaf
+    add = [c for c in hir.calls(grp['body']) if c.get('k') == 'MethodCall' and c['name'] == 'add_to_phase' and not any(x is c for x in hir.nodes(inner))]
+    acc_ok = False
+    msg = 'the phases of the fused leaves must be summed (`ph += g.phase(v)`) and the sum added to the leaf of the first gadget'
+    if len(add) == 1 and hir.local(add[0]['args'][1]):
+        acc = hir.local(add[0]['args'][1])[1]
+        tgt = hir.strip(add[0]['args'][0])
+        first_leaf = tgt.get('k') == 'Field' and tgt['name'] == '1' and hir.strip(tgt['e']).get('k') == 'Index' and hir.lit_int(hir.strip(hir.strip(tgt['e'])['i'])) == 0 and hir.local(hir.strip(tgt['e'])['e']) and hir.local(hir.strip(tgt['e'])['e'])[1] == val_id
+        init_zero = acc in lets and (hir.callee(hir.strip(lets[acc]['init'])) or '').endswith('zero')
+        ups = [n for n in hir.nodes(inner['body']) if n.get('k') in ('Assign', 'AssignOp') and hir.local(n['l']) and hir.local(n['l'])[1] == acc]
+        fold = False
+        if len(ups) == 1:
+            u = ups[0]
+            rhs_phase = [c for c in hir.calls(u['r']) if c.get('k') == 'MethodCall' and c['name'] == 'phase' and hir.local(c['args'][0]) and len(ivars) == 2 and hir.local(c['args'][0])[1] == ivars[1]]
+            if u['k'] == 'AssignOp' and u['op'] == 'AddAssign':
+                fold = bool(rhs_phase)
+            elif u['k'] == 'Assign':
+                uses_old = any(hir.local(x) and hir.local(x)[1] == acc for x in hir.nodes(u['r']) if x.get('k') == 'Path')
+                fold = bool(rhs_phase) and uses_old and hir.strip(u['r']).get('k') == 'Binary' and hir.strip(u['r'])['op'] == 'Add'
+                if rhs_phase and not uses_old:
+                    msg = 'the accumulator is overwritten (`ph = g.phase(v)`) instead of summed: with three or more gadgets in a group the phases of the middle ones are dropped while their vertices are removed'
+        acc_ok = bool(first_leaf and init_zero and fold)
+    res.append(('phase-sum', acc_ok, msg))
+    return res
+
+
 def run(ck, parts=None):
     facts = ck.facts
     parts = set(parts or ('D1', 'D2', 'D3', 'D4'))
@@ -268,6 +372,12 @@ def _d2(ck, facts):
     ck.ob('R-MATCH-point', 'simplify::remove_gadget_pi/etype(leaf,centre)=H', ety_ok, ck.site('simplify::remove_gadget_pi'), 'the filter chain does not require the leaf\'s single leg to be a Hadamard edge (pi-copy through a plain Z-Z edge is unsound)')
     ck.ob('R-MATCH-point', 'simplify::remove_gadget_pi/pairs-centre-with-leaf', pair_ok and len(applied) == 1, ck.site('simplify::remove_gadget_pi'), 'the (centre, leaf) pairing or the single pi_copy_unchecked application is no longer recognised')
 
+    for slot, ok, msg in fuse_effect(facts):
+        if ok is None:
+            ck.violation('R-EFFECT-fuse', 'simplify::fuse_gadgets/' + slot, ck.site('simplify::fuse_gadgets'), msg)
+        else:
+            ck.ob('R-EFFECT-fuse', 'simplify::fuse_gadgets/' + slot, ok, ck.site('simplify::fuse_gadgets'), msg)
+
 
 def _d4(ck, facts):
     keys = [k for k, f in facts['fns'].items() if f['file'].endswith(('basic_rules.rs', 'simplify.rs', 'graph.rs'))]
@@ -299,6 +409,8 @@ def _controls(ck):
             bad = m is None
     ck.control('R-GUARD flags an unchecked application without its matcher', bad)
     frs = redge.raw_sites(fx, ['simplify::bad_edge'])
+    fe = fuse_effect(fx)
+    ck.control('R-EFFECT-fuse flags a per-group scalar and an overwritten phase accumulator', sum(1 for _s, ok, _m in fe if ok is False) >= 2)
     ck.control('R-EDGE flags a raw insertion between two pre-existing vertices', any(j is None for _k, _c, j, _d in frs))
 
 
